@@ -62,7 +62,7 @@ Print Assumptions C11_accepted_traces_are_model_traces.
 (* non-vacuity *)
 Definition ex_pool : params :=
   mkParams [mkSpec 7 UntilRunDone OnSignal RWC; mkSpec 8 NonBlocking OnSignal RPlain;
-            mkSpec 9 UntilRunDone OnSignal RNone] false false.
+            mkSpec 9 UntilRunDone OnSignal RNone] true true false.
 
 Example C11_nonvacuous_unchanged :
   NoDup (names ex_pool [(0, 1); (1, 2); (2, 3)]%N) /\ NoDup (names ex_pool [(2, 0); (0, 5); (1, 5)]%N) /\
